@@ -3,6 +3,7 @@ import Driver.Preds
 import Driver.Suite
 import Driver.Convert
 import Driver.Fee
+import Driver.Mint
 open Sunrise.Driver
 
 def evalLine (line : String) : String :=
@@ -21,7 +22,8 @@ partial def loop (h : IO.FS.Stream) (out : IO.FS.Stream) : IO Unit := do
 /-- stateful suites: first input line `suite <name>` -/
 def suites : List (String × (IO.FS.Stream → IO.FS.Stream → IO Unit)) := [
   ("convert", ConvertSuite.run),
-  ("fee", FeeSuite.run)
+  ("fee", FeeSuite.run),
+  ("mint", MintSuite.run)
 ]
 
 def main : IO Unit := do
